@@ -11,6 +11,11 @@
 (*   fold      FoldConstantsPass._state/_counts/...    (reset at the start of every call)              *)
 (*   eval      evaluator._default_evaluator            (swapped by default_as, try/finally)            *)
 (*   realized  nn.Parameter._realized                                                                  *)
+(*   refops    the constant folder's reference evaluator (module singleton): which implementation of    *)
+(*             an operator it uses - a function of (operator, opset version) of the model being folded *)
+(*   odec/fnStd the second script module (a function whose only node is in another domain): was it      *)
+(*             decorated, and the standard-domain import recorded IN the function (none: to_model_proto *)
+(*             works on a clone and computes the model's imports on a copy)                             *)
 (*   decorated/gver/captured   the script module of the running program: was it decorated, the version *)
 (*             of its globals now, and the version the decorator captured                              *)
 (* An OPERATION (translate a script ok / raising, to_model_proto repeated, mutate globals, optimize,   *)
@@ -38,7 +43,8 @@ CONSTANTS Deviations,   \* subset of AllDevs
 VARIABLES st, sh, hist, cur, pc, res
 vars == <<st, sh, hist, cur, pc, res>>
 
-AllDevs == {"builder_leak", "realized_sticky", "global_array_aliased", "set_order_leaks"}
+AllDevs == {"builder_leak", "realized_sticky", "global_array_aliased", "set_order_leaks",
+            "proto_writes_function", "refop_cache_unversioned"}     \* the last three: defects the code does NOT have (regressions)
 Perms == {"p1", "p2"}            \* iteration orders of a set with >= 2 elements
 Range(s) == {s[i] : i \in DOMAIN s}
 
@@ -54,6 +60,10 @@ RR  == <<"_new_shape", "_allowzero", "_new_shape_name">>
 GlobEvents == <<Ev("modexec", "c14s_glob"), Ev("typecache", "FLOAT|3"), Ev("opset", "Opset|c14.custom|2"),
                 Ev("translate", "sub"), Ev("translated", "sub"), Ev("opset", "Opset|this|1"),
                 Ev("translate", "glob"), Ev("translated", "glob")>>
+OuterEvents == <<Ev("modexec", "c14s_outer"), Ev("opset", "Opset|c14.inner|1"), Ev("translate", "inner"), Ev("translated", "inner"),
+                 Ev("opset", "Opset|this|1"), Ev("translate", "outer"), Ev("translated", "outer"),
+                 Ev("translate", "only_custom"), Ev("translated", "only_custom")>>
+RefOp(op, v) == [k |-> "refop", a |-> op, b |-> v, ws |-> <<>>, rs |-> <<>>, cond |-> ""]
 Params == <<"fc1.weight", "fc1.bias", "layers.0.weight", "layers.0.bias", "layers.1.weight", "layers.1.bias">>
 
 (* the static catalogue: the operations of harness/c14.py with their critical steps (rule events *)
@@ -68,7 +78,11 @@ StaticCat == [
                   Ev("translate_raise", "bad2"), Ev("raise", "TranslationError")>>,
   ProtoGlob |-> Cond(GlobEvents, "undecorated") \o <<Ev("toproto", "glob"), Ev("toproto", "glob"), Ev("toproto", "glob")>>,
   MutGlob   |-> Cond(GlobEvents, "undecorated") \o <<Ev("mutate", "glob")>>,
-  OptA      |-> <<Chk("ReshapeReshape", "ok", RR), Rew("ReshapeReshape", "ok", RR),
+  ProtoOuter17 |-> Cond(OuterEvents, "noouter") \o <<Ev("toproto_pure", "outer"), Ev("toproto_ver", "17")>>,
+  ProtoOuter19 |-> Cond(OuterEvents, "noouter") \o <<Ev("toproto_pure", "outer"), Ev("toproto_ver", "19")>>,
+  OptOld    |-> <<RefOp("ReduceSum", "11"), RefOp("Unsqueeze", "11")>>,
+  OptNew    |-> <<RefOp("ReduceSum", "13"), RefOp("Unsqueeze", "13")>>,
+  OptA      |-> <<RefOp("Cast", "18"), Chk("ReshapeReshape", "ok", RR), Rew("ReshapeReshape", "ok", RR),
                   Chk("Flatten2Reshape", "ok", <<"_new_shape">>), Rew("Flatten2Reshape", "ok", <<"_new_shape">>),
                   Chk("MaterializeReshapeShape", "ok", <<"_new_dims">>), Rew("MaterializeReshapeShape", "ok", <<"_new_dims">>),
                   Chk("FuseConvPad", "ok", <<"_pads_list">>), Rew("FuseConvPad", "ok", <<"_pads_list">>)>>,
@@ -106,7 +120,7 @@ StaticCat == [
 Cat == IF UseRecorded THEN JsonDeserialize(IOEnv.C14_CAT) ELSE StaticCat
 
 -----------------------------------------------------------------------------
-Cells == {"opsets", "types", "pb", "fold", "compiled", "eval", "realized", "glob"}
+Cells == {"opsets", "types", "pb", "fold", "compiled", "eval", "realized", "glob", "refops", "outer"}
 
 InitS == [opsets |-> {}, types |-> {},
           pb |-> [dom |-> "", default |-> TRUE], pbStack |-> <<>>,
@@ -116,10 +130,12 @@ InitS == [opsets |-> {}, types |-> {},
           eval |-> "ort", evalStack |-> <<>>,
           realized |-> {},
           decorated |-> FALSE, gver |-> 0, captured |-> 0,
+          refops |-> {},                      \* <<operator, opset version>> whose reference implementation was looked up
+          odec |-> FALSE, fnStd |-> "-",
           writer |-> [c \in Cells |-> 0],     \* which operation (position) wrote the cell last; 0 = import time
           \* per call:
           acc |-> <<>>, skips |-> <<>>, outs |-> <<>>, nchk |-> 0, touch |-> {},
-          begin |-> [decorated |-> FALSE, compiled |-> FALSE]]
+          begin |-> [decorated |-> FALSE, compiled |-> FALSE, odec |-> FALSE]]
 
 Item(k, v, dev) == [k |-> k, v |-> v, dev |-> dev]
 Add(s, it) == [s EXCEPT !.acc = Append(@, it)]
@@ -128,6 +144,7 @@ Write(s, c, pos) == [Touch(s, c, pos) EXCEPT !.writer[c] = pos]
 
 Skipped(s, e) == \/ e.cond = "undecorated" /\ s.begin.decorated
                  \/ e.cond = "uncompiled" /\ s.begin.compiled
+                 \/ e.cond = "noouter" /\ s.begin.odec
 
 (* ---- the critical steps, as functions of (process state, event, position in the history) ---- *)
 ApOpset(s, e, pos) ==          \* Opset.__new__: look up, insert on a miss; the object is a function of the key only
@@ -135,10 +152,12 @@ ApOpset(s, e, pos) ==          \* Opset.__new__: look up, insert on a miss; the 
 ApTypeCache(s, e, pos) ==      \* TensorType.__class_getitem__
    IF e.a \in s.types THEN Touch(s, "types", pos) ELSE [Write(s, "types", pos) EXCEPT !.types = @ \cup {e.a}]
 ApModExec(s, e, pos) ==        \* the program (re-)executes a script module: fresh globals
-   IF e.a = "c14s_glob" THEN [Write(s, "glob", pos) EXCEPT !.decorated = FALSE, !.gver = 0] ELSE s
+   IF e.a = "c14s_glob" THEN [Write(s, "glob", pos) EXCEPT !.decorated = FALSE, !.gver = 0]
+   ELSE IF e.a = "c14s_outer" THEN [Write(s, "outer", pos) EXCEPT !.odec = FALSE, !.fnStd = "-"] ELSE s
 ApTranslate(s, e, pos) ==      \* Converter.__init__ copies the globals; constants are evaluated now
    IF e.a = "glob" THEN [Touch(s, "glob", pos) EXCEPT !.captured = s.gver] ELSE s
-ApTranslated(s, e, pos) == IF e.a = "glob" THEN [s EXCEPT !.decorated = TRUE] ELSE s
+ApTranslated(s, e, pos) == IF e.a = "glob" THEN [s EXCEPT !.decorated = TRUE]
+                           ELSE IF e.a = "only_custom" THEN [s EXCEPT !.odec = TRUE] ELSE s
 ApTranslateRaise(s, e, pos) == s   \* the Converter is per call: nothing persists
 ApListSet(s, e, pos, perm) ==  \* If outputs / Loop state: sorted(set); the fixed defect iterated the set
    LET leak == "set_order_leaks" \in Deviations
@@ -146,6 +165,19 @@ ApListSet(s, e, pos, perm) ==  \* If outputs / Loop state: sorted(set); the fixe
 ApToProto(s, e, pos) ==        \* to_model_proto clones the graph; constants are the captured ones -
    LET view == IF "global_array_aliased" \in Deviations THEN s.gver ELSE s.captured   \* - unless the IR aliases a mutable global
    IN Add(Touch(s, "glob", pos), Item("proto", ToString(view), IF view # s.captured THEN "global_array_aliased" ELSE ""))
+ApToProtoPure(s, e, pos) ==    \* to_function_proto before and after to_model_proto(): the function's own imports are what they were
+   Add(Touch(s, "outer", pos), Item("fnproto", s.fnStd, IF s.fnStd # "-" THEN "proto_writes_function" ELSE ""))
+ApToProtoVer(s, e, pos) ==     \* to_model_proto(opset_version=v) of a function without standard-domain node: the model imports v -
+   LET used == IF s.fnStd = "-" THEN e.a ELSE s.fnStd                   \* - unless an earlier call wrote its version into the function
+       s1 == Add(Touch(s, "outer", pos), Item("protov", used, IF used # e.a THEN "proto_writes_function" ELSE ""))
+   IN IF "proto_writes_function" \in Deviations /\ s.fnStd = "-" THEN [Write(s1, "outer", pos) EXCEPT !.fnStd = e.a] ELSE s1
+ApRefOp(s, e, pos) ==          \* ReferenceEvaluator.get_evaluator(domain, op, version): load_op per call, no memo
+   LET unv == "refop_cache_unversioned" \in Deviations
+       prior == {x \in s.refops : x[1] = e.a}
+       used == IF unv /\ prior # {} THEN (CHOOSE x \in prior : TRUE)[2] ELSE e.b
+       s1 == Add(s, Item("refimpl", e.a \o "@" \o used, IF used # e.b THEN "refop_cache_unversioned" ELSE ""))
+   IN IF <<e.a, e.b>> \in s.refops \/ (unv /\ prior # {}) THEN Touch(s1, "refops", pos)
+      ELSE [Write(s1, "refops", pos) EXCEPT !.refops = @ \cup {<<e.a, e.b>>}]
 ApMutate(s, e, pos) == [Write(s, "glob", pos) EXCEPT !.gver = 1]
 ApFoldReset(s, e, pos) == [Write(s, "fold", pos) EXCEPT !.fold = [k |-> "reset", pos |-> pos]]
 ApFoldEnd(s, e, pos) ==        \* the visit reads _state/_counts: empty iff _reset ran in this call (or nothing ran before)
@@ -200,7 +232,7 @@ Both(F(_)) == /\ st' = Step(st, F) /\ sh' = Step(sh, F) /\ pc' = pc + 1 /\ UNCHA
 Init == st = InitS /\ sh = InitS /\ hist = <<>> /\ cur = "idle" /\ pc = 0 /\ res = <<>>
 
 PerCall(s) == [s EXCEPT !.acc = <<>>, !.skips = <<>>, !.outs = <<>>, !.nchk = 0, !.touch = {}, !.pbStack = <<>>, !.evalStack = <<>>,
-                        !.begin = [decorated |-> s.decorated, compiled |-> s.compiled]]
+                        !.begin = [decorated |-> s.decorated, compiled |-> s.compiled, odec |-> s.odec]]
 Begin(op) == /\ Idle /\ Len(hist) < MaxLen
              /\ hist' = Append(hist, op) /\ cur' = op /\ pc' = 1
              /\ st' = PerCall(st) /\ sh' = PerCall(InitS)      \* the shadow: the same operation in a fresh process
@@ -218,6 +250,9 @@ EvListSet        == Running /\ E.k = "listset"
                           /\ sh' = Step(sh, LAMBDA s : ApListSet(s, E, Pos, p2))
                     /\ pc' = pc + 1 /\ UNCHANGED <<hist, cur, res>>
 EvToProto        == Running /\ E.k = "toproto"         /\ Both(LAMBDA s : ApToProto(s, E, Pos))
+EvToProtoPure    == Running /\ E.k = "toproto_pure"    /\ Both(LAMBDA s : ApToProtoPure(s, E, Pos))
+EvToProtoVer     == Running /\ E.k = "toproto_ver"     /\ Both(LAMBDA s : ApToProtoVer(s, E, Pos))
+EvRefOp          == Running /\ E.k = "refop"           /\ Both(LAMBDA s : ApRefOp(s, E, Pos))
 EvMutate         == Running /\ E.k = "mutate"          /\ Both(LAMBDA s : ApMutate(s, E, Pos))
 EvFoldReset      == Running /\ E.k = "fold_reset"      /\ Both(LAMBDA s : ApFoldReset(s, E, Pos))
 EvFoldEnd        == Running /\ E.k \in {"fold_done", "fold_raise"} /\ Both(LAMBDA s : ApFoldEnd(s, E, Pos))
@@ -236,7 +271,7 @@ EvRaise          == Running /\ E.k = "raise"           /\ Both(LAMBDA s : ApRais
 
 Snap(s) == [opsets |-> s.opsets, types |-> s.types, pbDefault |-> s.pb.default, pbDom |-> s.pb.dom,
             stash |-> {<<x.r, x.a>> : x \in s.stash}, compiled |-> s.compiled, fold |-> s.fold.k, eval |-> s.eval,
-            realized |-> s.realized, decorated |-> s.decorated, gver |-> s.gver]
+            realized |-> s.realized, decorated |-> s.decorated, gver |-> s.gver, odec |-> s.odec]
 Proj(acc) == [i \in DOMAIN acc |-> <<acc[i].k, acc[i].v>>]      \* the observable result (the dev tag is bookkeeping)
 Same == Proj(st.acc) = Proj(sh.acc)
 Why == LET d == {it.dev : it \in {x \in Range(st.acc) : <<x.k, x.v>> \notin Range(Proj(sh.acc))}} \ {""}
@@ -248,7 +283,7 @@ End == /\ cur # "idle" /\ pc > Len(Cat[cur])
 
 Next == \/ \E op \in Alphabet : Begin(op)
         \/ EvOpset \/ EvTypeCache \/ EvModExec \/ EvTranslate \/ EvTranslated \/ EvTranslateRaise \/ EvListSet
-        \/ EvToProto \/ EvMutate \/ EvFoldReset \/ EvFoldEnd \/ EvCheck \/ EvRewrite
+        \/ EvToProto \/ EvToProtoPure \/ EvToProtoVer \/ EvRefOp \/ EvMutate \/ EvFoldReset \/ EvFoldEnd \/ EvCheck \/ EvRewrite
         \/ EvPbEnter \/ EvPbExit \/ EvPbUse \/ EvCompiled \/ EvPmMatch \/ EvConvert \/ EvRealize
         \/ EvEvEnter \/ EvEvExit \/ EvRaise \/ End
 Spec == Init /\ [][Next]_vars
@@ -261,7 +296,7 @@ Explained == \A i \in DOMAIN res : res[i].why \subseteq Deviations
 (* no context manager leaves its global swapped (fails with builder_leak) *)
 GlobalsRestored == Idle => (st.pb.default /\ st.eval = "ort")
 (* every event kind of the catalogue has an action *)
-Kinds == {"opset", "typecache", "modexec", "translate", "translated", "translate_raise", "listset", "toproto", "mutate",
+Kinds == {"opset", "typecache", "modexec", "translate", "translated", "translate_raise", "listset", "toproto", "toproto_pure", "toproto_ver", "refop", "mutate",
           "fold_reset", "fold_done", "fold_raise", "check", "rewrite", "pb_enter", "pb_exit", "pb_use", "compiled",
           "pm_match", "convert", "realize", "ev_enter", "ev_exit", "raise"}
 CatalogueOK == \A op \in Alphabet : \A i \in DOMAIN Cat[op] : Cat[op][i].k \in Kinds
@@ -279,7 +314,8 @@ Emit == (Idle /\ EmitLen > 0 /\ Len(hist) = EmitLen) => PrintT(<<"CASE", ToJson(
 NoDevs == {}
 RealDevs == {"builder_leak", "realized_sticky", "global_array_aliased"}
 SeedDevs == {"set_order_leaks"}
+RegressionDevs == {"proto_writes_function", "refop_cache_unversioned"}
 AllOps == DOMAIN StaticCat
-QuickOps == {"TrGlob", "TrBad1", "ProtoGlob", "MutGlob", "OptA", "RwY", "RwCheckRaise", "FoldA", "FoldNoop", "FoldRaise",
-             "PatFree", "PatRaiseCustom", "PmMatch", "ModBuild", "EvRaise"}
+QuickOps == {"TrGlob", "ProtoGlob", "MutGlob", "OptA", "RwY", "RwCheckRaise", "FoldA", "FoldNoop", "FoldRaise",
+             "PatFree", "PatRaiseCustom", "ModBuild", "OptOld", "OptNew", "ProtoOuter17", "ProtoOuter19"}
 =============================================================================
